@@ -10,25 +10,33 @@ SimRec(kk, x) == LET n == RandomElement(1..MaxRows)
                  IN SortSeq(TLCEval([i \in 1..n |-> SimTup(kk, x + i)]), RowLT)
 SimRecs(kk) == {SimRec(kk, j) : j \in 1..2}
 
-SimAtom(kk, x) ==
+\* fl = 0: comparisons (and now and then an atom on a non-key column); fl = 1: also IN and string operators
+SimAtom(kk, fl, x) ==
   LET r == RandomElement(1..40) IN
   IF r = 1 THEN NonKey
-  ELSE IF r \in 2..4 THEN [t |-> "in", c |-> RandomElement(1..kk), vs |-> RandomElement((SUBSET Vals) \ {{}})]
-  ELSE IF r \in 5..7 THEN [t |-> "strop", c |-> RandomElement(1..kk), op |-> RandomElement(StrOps), v |-> RandomElement(Vals)]
+  ELSE IF fl = 1 /\ r \in 2..7 THEN [t |-> "in", c |-> RandomElement(1..kk), vs |-> RandomElement((SUBSET Vals) \ {{}})]
+  ELSE IF fl = 1 /\ r \in 8..16 /\ {i \in 1..kk : ct[i] = "o"} # {}
+       THEN [t |-> "strop", c |-> RandomElement({i \in 1..kk : ct[i] = "o"}), op |-> RandomElement(StrOps), v |-> RandomElement(Vals)]
   ELSE [t |-> "cmp", c |-> RandomElement(1..kk), op |-> RandomElement(CmpOps), v |-> RandomElement(Vals)]
 
-RECURSIVE SimTree(_, _, _)
-SimTree(kk, d, x) ==
-  IF d = 0 \/ RandomElement(1..4) = 1 THEN SimAtom(kk, x)
-  ELSE [t |-> RandomElement({"and", "or"}), l |-> SimTree(kk, d - 1, 2 * x), r |-> SimTree(kk, d - 1, 2 * x + 1)]
-SimConds(kk) == {SimTree(kk, CondDepth, j) : j \in 1..3}
+RECURSIVE SimTree(_, _, _, _)
+SimTree(kk, fl, d, x) ==
+  IF d = 0 \/ RandomElement(1..4) = 1 THEN SimAtom(kk, fl, x)
+  ELSE [t |-> RandomElement({"and", "or"}), l |-> SimTree(kk, fl, d - 1, 2 * x), r |-> SimTree(kk, fl, d - 1, 2 * x + 1)]
+SimConds(kk) == {SimTree(kk, IF RandomElement(1..6) = 1 THEN 1 ELSE 0, CondDepth, j) : j \in 1..3}
 
 \* time bounds on one key column (then that column is the integer column "time")
-SimTB(kk, x) == IF RandomElement(1..4) # 1 THEN NoTB
-                ELSE LET lo == RandomElement({NegInf} \cup Vals)
-                         hi == RandomElement({PosInf} \cup {v \in Vals : v >= lo})
-                     IN [c |-> RandomElement(1..kk), lo |-> lo, hi |-> hi]
-SimTBs(kk) == {SimTB(kk, j) : j \in 1..2}
+SimTB(kk, c, x) ==
+  LET cols == (1..kk) \ StrCols(c) IN
+  IF RandomElement(1..4) # 1 \/ cols = {} THEN NoTB
+  ELSE LET lo == RandomElement({NegInf} \cup Vals)
+           hi == RandomElement({PosInf} \cup {v \in Vals : v >= lo})
+       IN [c |-> RandomElement(cols), lo |-> lo, hi |-> hi]
+SimTBs(kk, c) == {SimTB(kk, c, j) : j \in 1..2}
+
+\* column types: the time column is an integer column
+SimTypes(kk) == {TLCEval([i \in 1..kk |-> IF RandomElement(1..3) = 1 THEN "ia" ELSE "o"]) : j \in 1..2}
+BothTypes(kk) == {AllO(kk), [i \in 1..kk |-> "ia"]}
 
 \* exhaustive configurations search with two settings only: MayCoversMatch covers the others
 TwoSettings == {"autoc2m0", "exclc2m0"}
